@@ -118,6 +118,18 @@ class Canon:
                 return ("col", self.container(a0), i)
             if n in ROW_ITERS:
                 return ("row", self.container(a0), i)
+            if n in ("filter", "skip_while", "take_while", "inspect") and len(it[3]) == 2:
+                # a sub-sequence: the element is still the source's element at SOME source index (the iv then counts
+                # source positions; its extent is unknown, so coverage claims fail as they must)
+                return self.nth(a0, i)
+            if n == "filter_map" and len(it[3]) == 2 and it[3][1][0] in ("closure", "fnref"):
+                cb = self.ev.facts.bodies.get(it[3][1][1] if it[3][1][0] == "closure" else it[3][1][2])
+                if cb is not None:
+                    x = self.nth(a0, i)
+                    r = self.ev.apply(it[3][1], [x], ("tab-nth", 0, ()), Env(cb))
+                    o = self.ev.as_opt(r) if r[0] != "none" else None
+                    if o is not None:
+                        return self.canon(o[1])
             if n == "map" and len(it[3]) == 2 and it[3][1][0] in ("closure", "fnref"):
                 cb = self.ev.facts.bodies.get(it[3][1][1] if it[3][1][0] == "closure" else it[3][1][2])
                 if cb is not None:
